@@ -401,7 +401,7 @@ def run(ctx):
             n = {11: 10, 24: 7, 53: 4}[se[0]]
             for i in range(reps):
                 jobs.append((f'c05:{cfg}:{se}:{i}', cfg, se, ctx.seed, n, 'adv' if i % 2 else 'mix'))
-    with mp.get_context('fork').Pool(14) as pool:
+    with mp.get_context('fork').Pool(8) as pool:
         results = pool.map(_job, jobs, chunksize=1)
     # directed: the known zero-operand finding
     for cfg in ((1, 0, False), (3, 1, False)):
@@ -415,6 +415,55 @@ def run(ctx):
     for r in results:
         handle(ctx, r, items)
     L.run_corr(ctx, items, 'secure float pair operations (sectypes.SecureFloat vs MpycV.Flt)')
+    subset_outputs(ctx)
+
+
+SUBSET_LISTS = [[0.0, 3.5, -1250.0, 2.0 ** -7], [3.5, 0.0, 0.0], [0.0], [0.0, 0.0, 1.0], [-2.75, 1.5, 0.0, 96.0], [1024.0]]
+
+
+def subset_output_case(m, t, no_prss, se, vals, R, sender, seed):
+    """mpc.output of a LIST of secure floats (zeros at different positions) to a proper subset of the parties: receivers obtain
+    the exact values (all dyadic, representable), the others None"""
+    async def program(mpc):
+        secflt = mpc.SecFlt(s=se[0], e=se[1])
+        x = mpc.input([secflt(v) for v in vals], senders=sender)
+        out = await mpc.output(x, receivers=R)
+        one = await mpc.output(x[-1], receivers=R)
+        return [None if v is None else float(v) for v in out], None if one is None else float(one)
+    try:
+        res = SimNet(m, t, no_prss=no_prss, seed=seed).run(program)
+    except Exception as exc:  # noqa: BLE001
+        return f'{type(exc).__name__}: {str(exc)[:200]}'
+    Rl = [R] if isinstance(R, int) else list(R)
+    for p in range(m):
+        out, one = res[p]
+        if p in Rl:
+            if out != vals or one != vals[-1]:
+                return f'receiver {p} obtained {out} / {one}, the secure floats hold {vals} / {vals[-1]}'
+        elif any(v is not None for v in out) or one is not None:
+            return f'non-receiver {p} obtained {out} / {one}'
+    return None
+
+
+def subset_outputs(ctx):
+    rng = ctx.subrng('subset-output')
+    for (m, t) in ((2, 0), (3, 1), (4, 1)) + (((5, 2),) if ctx.thorough else ()):
+        for vals in SUBSET_LISTS:
+            for _ in range(ctx.scale(1, 4)):
+                k = rng.randrange(1, m)
+                R = sorted(rng.sample(range(m), k)) if rng.random() < 0.8 else rng.randrange(m)
+                sender = rng.randrange(m)
+                no_prss = rng.random() < 0.3
+                se = rng.choice(TYPES[:2])
+                seed = rng.randrange(10**9)
+                msg = subset_output_case(m, t, no_prss, se, vals, R, sender, seed)
+                ctx.case(('subset-output', m, t, no_prss, tuple(se), tuple(vals), repr(R), sender), nontrivial=True)
+                ctx.count('op:output-list-to-subset')
+                if msg:
+                    ctx.violation(f'C05: output of {vals} to receivers {R} (m={m}, sender {sender}): ' + msg,
+                                  {'kind': 'subset-output', 'm': m, 't': t, 'no_prss': no_prss, 'se': list(se), 'vals': vals,
+                                   'R': R, 'sender': sender, 'seed': seed})
+                    return
 
 
 def handle(ctx, r, items=None):
@@ -452,6 +501,10 @@ def handle(ctx, r, items=None):
 
 
 def replay(ctx, data):
+    if data.get('kind') == 'subset-output':
+        msg = subset_output_case(data['m'], data['t'], data['no_prss'], tuple(data['se']), data['vals'], data['R'],
+                                 data['sender'], data['seed'])
+        return msg is None, msg or 'ok'
     res = run_cases(tuple(data['cfg']), tuple(data['se']), data['cases'], data.get('seed', 0))
     if res['error']:
         return False, res['error']
@@ -476,7 +529,7 @@ def search(ctx):
         for se in TYPES:
             for i in range(ctx.scale(12, 40)):
                 jobs.append((f'c05s:{cfg}:{se}:{i}', cfg, se, ctx.seed + 1, 10, 'adv' if i % 2 else 'mix'))
-    with mp.get_context('fork').Pool(14) as pool:
+    with mp.get_context('fork').Pool(8) as pool:
         for r in pool.map(_job, jobs, chunksize=1):
             handle(ctx, r, None)
             if any(not (isinstance(rep, dict) and rep.get('finding_key')) for _, rep in ctx.violations):
